@@ -25,7 +25,8 @@ func init() {
 			"R7 lockset for ociauth.registry and stdTransport.registries, with the sync.Once initialisation exemption verified rather than assumed. " +
 			"R1b the expiry purge examines every cached token (slices.DeleteFunc, or a loop whose exit does not depend on a token's expiry). " +
 			"R1c the purge instant (time.Now) is read with the registry lock held; R6b the first token request of an acquisition always asks for required ∪ desired scope. " +
-			"R2b (shared with C09.R8) the containment test the cache lookup relies on is a subset test.",
+			"R2b (shared with C09.R8) the containment test the cache lookup relies on is a subset test. " +
+			"R8 (shared with C11.R7) RoundTrip works on a deep copy (Request.Clone) of the caller's request: a token never lands in the caller's own header map, from where a re-sent request would carry it stale; R9 challenge parameters are stored under lower-cased names (they are looked up in lower case and auth-param names are case-insensitive).",
 		NotDecided: "real-time expiry (that a token is unexpired when sent) and what the token server actually grants are not decided.",
 		Technique:  "static analysis: SSA dominance, phi-edge pairing of token and scope, reachability on the CFG, lockset dataflow",
 	})
@@ -179,6 +180,12 @@ func runC10(c *core.Ctx) {
 	firstTokenRequestAsksForUnion(c, "C10.R6")
 	// the containment test the cache lookup relies on
 	actionSubsetTest(c, "C10.R2")
+	challengeParamsKeyedLowerCase(c, "C10.R9")
+	if st := c.P.NamedType("ociauth", "stdTransport"); st != nil {
+		if rt := declaredMethod(c, types.NewPointer(st), "RoundTrip"); rt != nil {
+			requestUnmodified(c, rt, "C10.R8")
+		}
+	}
 	if purge != nil {
 		purgeExaminesEveryToken(c, "C10.R1", []*ssa.Function{purge})
 	}
